@@ -752,7 +752,7 @@ func init() {
 	core.Register(&core.Check{
 		ID:    "C16",
 		Level: "exploration",
-		Rule: "every byte string up to length L over the 30-byte significant alphabet, the 12-byte numeric alphabet, a string-escape alphabet, a comment alphabet, all <=2-byte strings over all 256 values, and every keyword followed by each significant byte; each in file and line mode. A case is one (input, mode); non-trivial = non-empty input. Each case is lexed by the real lexer and by an independent reference scanner; tiling, text, extent, end-marker, interning and keyword clauses are compared token by token.",
+		Rule: "every byte string up to length L over the 30-byte significant alphabet, the 12-byte numeric alphabet, a string-escape alphabet, a comment alphabet, all <=2-byte strings over all 256 values, and every keyword followed by each significant byte; each in file and line mode. A case is one (input, mode); non-trivial = non-empty input. Each case is lexed by the real lexer and by an independent reference scanner; tiling, text, extent, end-marker, interning and keyword clauses are compared token by token. Histories of <=3 actions over texts lexed through one reused caller buffer (lexer.NewBytes) and token.ResetInterning(): delivered tokens keep their text, equal tokens since the last reset are one object, keywords stay keywords.",
 		Assume: []string{"lexer driven through NextToken/Pos only", "numbers: extent is not predicted by the reference, only literal==span and shape"},
 		QuickCap: 100 * time.Second, ThoroughCap: 15 * time.Minute,
 		Run: runC16,
